@@ -37,7 +37,15 @@ def run(ctx, model_ok, deep=False):
     try:
         for name, lines in oom.scenarios(pool, {}, tier).items():
             t = time.time()
-            n, base, res = oom.enumerate_scenario(ctx, name, lines)
+            try:
+                n, base, res = oom.enumerate_scenario(ctx, name, lines)
+            except RuntimeError as e_:
+                # the scenario does not even run to its end WITHOUT a failing allocation (with the application's allocator installed
+                # through jwt_set_alloc: a block that is not the allocator's released through it, a crash): that is a result
+                ctx.violation("crash:fault-free:%s" % name.split("-")[0], "scenario %s does not complete with the application allocator installed and no "
+                              "allocation failing: %s" % (name, str(e_)[:160]), replay_lines=["# scenario %s, no failing allocation" % name, "allochook -1"] + lines,
+                              detail=str(e_)[-1500:])
+                continue
             rnd = any(a in name for a in ("ES", "PS"))
             for k, e in sorted(res.items()):
                 cls, i, site = oom.classify(lines, base, e, randomised=rnd)
